@@ -207,6 +207,9 @@ class Ctx:
         i = t.get_id()
         if i in self.nonneg:
             return self.nonneg[i]
+        if self._instantiating:
+            # instances are guarded by 0 <= index < extent: inside the guard the index is non-negative
+            return True
         r = not self._feasible(t < 0)
         self.nonneg[i] = r
         return r
